@@ -162,11 +162,13 @@ func (r *Run) Finish() {
 	sort.Slice(r.violations, func(i, j int) bool { return r.violations[i].Sig < r.violations[j].Sig })
 	newV := 0
 	knownHit := map[string]int{}
+	var knownSigs []string
 	for i, v := range r.violations {
 		matched := false
 		for _, k := range known {
 			if k.Property == r.Property && k.Status == "open" && strings.HasPrefix(v.Sig, k.Match) {
 				knownHit[k.Match+"\x00"+k.What]++
+				knownSigs = append(knownSigs, v.Sig)
 				matched = true
 				break
 			}
@@ -199,6 +201,10 @@ func (r *Run) Finish() {
 	}
 	cov["exhaustive"] = r.Exhaustive
 	cov["known_finding_cases"] = len(r.violations) - newV
+	if len(knownSigs) > 300 {
+		knownSigs = knownSigs[:300]
+	}
+	cov["known_finding_signatures"] = knownSigs // the full signatures that matched a listed finding in this run
 	out := map[string]any{
 		"property_id": r.Property, "tier": r.Tier, "seed": r.Seed, "level": r.Level,
 		"coverage": cov, "assumptions": r.Assume,
